@@ -84,7 +84,7 @@ def run(ctx, only=None):
         known = im.get('name', '-') != '-'
         if known and 'native' in im and im['native'] != 'exit:44':
             nat = code_of(im['native'], True)
-            for mode in ('emu', 'emu_in_handler', 'emu_ignored', 'emu_foreign', 'emu_blocked', 'emu_thread'):
+            for mode in ('emu', 'emu_in_handler', 'emu_ignored', 'emu_foreign', 'emu_blocked', 'emu_thread', 'emu_otherpending'):
                 if mode in im and code_of(im[mode]) != nat:
                     ctx.violation({'signal': s, 'mode': mode},
                                   'emulate_default_handler(%d) [%s] gives %s but the kernel default gives %s' % (s, mode, im[mode], im['native']),
@@ -98,7 +98,7 @@ def run(ctx, only=None):
         ctx.correspondence('Kernel.v kernel_default = running kernel (forked native probes)', not bad_kernel, bad_kernel[:10])
         ctx.correspondence('model signal_name = implementation signal_name', not bad_name, bad_name[:10])
     ctx.samples = [{'signal': s, 'impl': impl.get(s), 'model': model.get(s)} for s in (15, 20, 29, 17, 64, -1) if s in impl]
-    ctx.coverage['rule'] = ('every signal number in the sweep %s: forked native default vs emulate_default_handler from normal context (default disposition, ignored, foreign handler, blocked), '
+    ctx.coverage['rule'] = ('every signal number in the sweep %s: forked native default vs emulate_default_handler from normal context (default disposition, ignored, foreign handler, blocked, another signal blocked and pending), '
                             'from a second thread, and from inside its own handler; distinct_nontrivial = signals known to the library whose native outcome could be measured' % ('[-2,70]+extremes' if ctx.tier == 'quick' else '[-2,299]+200 random i32'))
     ctx.coverage['exhaustive'] = False
 
